@@ -52,3 +52,146 @@ pub proof fn lemma_ints_of_all(ns: Seq<SNumber>)
         }
     }
 }
+
+// ---------------------------------------------------------------------------
+// the documented value of add / subtract / multiply / divide (C12), written from the statement:
+// the left-to-right fold of the arguments; 64-bit integers with truncating division when all
+// arguments are integers, f64 (integers converted) when any argument is a float.
+// ---------------------------------------------------------------------------
+pub enum ArOp { Add, Sub, Mul, Div }
+
+// the numbers the arguments stand for, in argument order
+pub open spec fn nums_of(s: SS, terms: Seq<Unifiable>) -> Seq<SNumber> {
+    Seq::new(terms.len(), |j: int| num_of(s, terms[j]))
+}
+
+// all numbers as floats
+pub open spec fn floats_of(ns: Seq<SNumber>) -> Seq<f64> {
+    Seq::new(ns.len(), |j: int| as_float(ns[j]))
+}
+
+// division that discards the remainder (rounds toward zero), on mathematical integers
+pub open spec fn tdiv(a: int, b: int) -> int {
+    if b == 0 { 0 }
+    else if a >= 0 && b > 0 { a / b }
+    else if a < 0 && b > 0 { -((-a) / b) }
+    else if a >= 0 && b < 0 { -(a / (-b)) }
+    else { (-a) / (-b) }
+}
+
+pub open spec fn i_op(op: ArOp, a: int, b: int) -> int {
+    match op { ArOp::Add => a + b, ArOp::Sub => a - b, ArOp::Mul => a * b, ArOp::Div => tdiv(a, b) }
+}
+
+pub open spec fn f_op(op: ArOp, a: f64, b: f64) -> f64 {
+    match op {
+        ArOp::Add => vstd::std_specs::ops::AddSpec::add_spec(a, b),
+        ArOp::Sub => vstd::std_specs::ops::SubSpec::sub_spec(a, b),
+        ArOp::Mul => vstd::std_specs::ops::MulSpec::mul_spec(a, b),
+        ArOp::Div => vstd::std_specs::ops::DivSpec::div_spec(a, b),
+    }
+}
+
+// ((init op s[0]) op s[1]) op ...   on mathematical integers
+pub open spec fn i_fold(op: ArOp, init: int, s: Seq<i64>) -> int
+    decreases s.len(),
+{
+    if s.len() == 0 { init } else { i_op(op, i_fold(op, init, s.drop_last()), s.last() as int) }
+}
+
+// ((init op s[0]) op s[1]) op ...   on f64
+pub open spec fn f_fold(op: ArOp, init: f64, s: Seq<f64>) -> f64
+    decreases s.len(),
+{
+    if s.len() == 0 { init } else { f_op(op, f_fold(op, init, s.drop_last()), s.last()) }
+}
+
+pub open spec fn i64_ok(v: int) -> bool { i64::MIN <= v <= i64::MAX }
+
+// "integer overflow and integer division by zero are outside the claim": every partial result fits
+// in an i64 and no divisor is zero
+pub open spec fn i_fold_ok(op: ArOp, init: int, s: Seq<i64>) -> bool {
+    &&& forall|k: int| 0 <= k <= s.len() ==> i64_ok(#[trigger] i_fold(op, init, s.take(k)))
+    &&& op is Div ==> forall|j: int| 0 <= j < s.len() ==> #[trigger] s[j] != 0
+}
+
+// start value and folded arguments of each function: add starts from 0, multiply from 1,
+// subtract and divide from the first argument
+pub open spec fn i_value(op: ArOp, is: Seq<i64>) -> int {
+    match op {
+        ArOp::Add => i_fold(op, 0, is),
+        ArOp::Mul => i_fold(op, 1, is),
+        _ => i_fold(op, is[0] as int, is.skip(1)),
+    }
+}
+pub open spec fn i_value_ok(op: ArOp, is: Seq<i64>) -> bool {
+    match op {
+        ArOp::Add => i_fold_ok(op, 0, is),
+        ArOp::Mul => i_fold_ok(op, 1, is),
+        _ => is.len() >= 1 && i_fold_ok(op, is[0] as int, is.skip(1)),
+    }
+}
+pub open spec fn f_value(op: ArOp, fs: Seq<f64>) -> f64 {
+    match op {
+        ArOp::Add => f_fold(op, 0.0f64, fs),
+        ArOp::Mul => f_fold(op, 1.0f64, fs),
+        _ => f_fold(op, fs[0], fs.skip(1)),
+    }
+}
+
+// the statement's value
+pub open spec fn arith_value(op: ArOp, ns: Seq<SNumber>) -> Unifiable {
+    if some_float(ns) { Unifiable::SFloat(f_value(op, floats_of(ns))) }
+    else { Unifiable::SInteger(i_value(op, ints_of(ns)) as i64) }
+}
+
+// precondition of the claim: ground numeric arguments (anything else panics), at least one argument for
+// subtract / divide (they take the first argument as the start value), and - when all arguments are
+// integers - no overflow and no zero divisor
+pub open spec fn arith_pre(op: ArOp, s: SS, terms: Seq<Unifiable>) -> bool {
+    &&& acyclic(s)
+    &&& forall|j: int| 0 <= j < terms.len() ==> num_arg(s, #[trigger] terms[j])
+    &&& (op is Sub || op is Div) ==> terms.len() >= 1
+    &&& !some_float(nums_of(s, terms)) ==> i_value_ok(op, ints_of(nums_of(s, terms)))
+}
+
+// machine division of i64 is truncating division
+pub proof fn lemma_i64_div_is_tdiv(a: i64, b: i64)
+    requires b != 0, !(a == i64::MIN && b == -1),
+    ensures
+        vstd::std_specs::ops::DivSpec::div_req(a, b),
+        vstd::std_specs::ops::DivSpec::div_spec(a, b) as int == tdiv(a as int, b as int),
+{
+    if a >= 0 && b < 0 {
+        assert(vstd::std_specs::ops::DivSpec::div_spec(a, b) == -((a as int) / (-(b as int)))) by (nonlinear_arith) requires b < 0, a >= 0;
+    } else if a < 0 && b < 0 {
+        assert(vstd::std_specs::ops::DivSpec::div_spec(a, b) == ((-(a as int)) / (-(b as int)))) by (nonlinear_arith) requires b < 0, a < 0, !(a == i64::MIN && b == -1);
+    } else if a < 0 && b > 0 {
+        assert(vstd::std_specs::ops::DivSpec::div_spec(a, b) == -((-(a as int)) / (b as int))) by (nonlinear_arith) requires b > 0, a < 0;
+    }
+}
+
+// one step of a fold over a prefix
+pub proof fn lemma_i_fold_step(op: ArOp, init: int, s: Seq<i64>, k: int)
+    requires 0 <= k < s.len(),
+    ensures i_fold(op, init, s.take(k + 1)) == i_op(op, i_fold(op, init, s.take(k)), s[k] as int),
+{
+    assert(s.take(k + 1).drop_last() =~= s.take(k));
+    assert(s.take(k + 1).last() == s[k]);
+}
+pub proof fn lemma_f_fold_step(op: ArOp, init: f64, s: Seq<f64>, k: int)
+    requires 0 <= k < s.len(),
+    ensures f_fold(op, init, s.take(k + 1)) == f_op(op, f_fold(op, init, s.take(k)), s[k]),
+{
+    assert(s.take(k + 1).drop_last() =~= s.take(k));
+    assert(s.take(k + 1).last() == s[k]);
+}
+// without a float, every number is an integer
+pub proof fn lemma_no_float_all_ints(ns: Seq<SNumber>)
+    requires !some_float(ns),
+    ensures forall|j: int| 0 <= j < ns.len() ==> #[trigger] ns[j] is SInteger,
+{
+    assert forall|j: int| 0 <= j < ns.len() implies #[trigger] ns[j] is SInteger by {
+        if !(ns[j] is SInteger) { assert(ns[j] is SFloat); }
+    }
+}
